@@ -81,6 +81,20 @@ claim('C10',
       'bounded exhaustive enumeration of add orders / index types with a sentinel read-back oracle',
       'DESIGN.md#c10')
 
+claim('C08',
+      'The real EIG methods (calc_As/_reduce/_reorder/calc_pfactor/_store_stats) are driven on a stub system holding '
+      'hand-built Jacobians: 5 (6) DAE systems x ALL zero-time-constant patterns with a well-conditioned algebraic block '
+      'x ALL permutations of the state order; reported eigenvalues must equal the finite generalised eigenvalues of '
+      '(J, diag(T,0)) from scipy, the state matrix T^-1(fx - fy gy^-1 gx), counts must partition, participation '
+      'factors be non-negative with per-mode sum one and the most-associated state equal to an independent '
+      'decomposition; the same oracle on 7 stock dynamic cases through EIG.run and on every subset of <=1 (2) exciter '
+      'lead-lag constants set to zero.',
+      'Trusts scipy.linalg.eig on the pencil; patterns whose algebraic block has condition number > 1e3 (synthetic) / '
+      '1e8 (stock) are outside the property precondition and skipped; repeated eigenvalues are not judged for the '
+      'most-associated state.',
+      'exhaustive enumeration of zero-T patterns x state permutations against a generalised-eigenvalue reference',
+      'DESIGN.md#c08')
+
 _PENDING = 'check not built yet in this round; planned per DESIGN.md (bounded exhaustive exploration applies)'
 for _p in ALL:
     if _p not in CLAIMED:
